@@ -21,10 +21,13 @@ def clean_network(rng, n, sizes, density, names=None):
         if s_ == "d":
             col.append([len(tops), len(tops) + 1])
             tops += ["dia-outer", "dia-inner"]
+        elif s_ == "w":      # wedge a -A- c -B- b: the corner at c has one edge of each of two topologies
+            col.append([len(tops), len(tops) + 1])
+            tops += ["wedge-a", "wedge-b"]
         else:
             col.append([len(tops)])
             tops.append(names[k] if names else TOPNAMES[s_])
-    if names and "d" not in sizes:
+    if names and "d" not in sizes and "w" not in sizes:
         tops = list(names)
     used = set()
     edges = []
@@ -36,13 +39,16 @@ def clean_network(rng, n, sizes, density, names=None):
         tries += 1
         k = rng.randrange(len(sizes))
         s_ = sizes[k]
-        nv = 4 if s_ == "d" else s_
+        nv = 4 if s_ == "d" else 3 if s_ == "w" else s_
         if nv > n:
             continue
         vs = rng.sample(range(n), nv)
         if s_ == "d":
             h1, r1, h2, r2 = vs
             es = [(h1, r1, 0), (r1, h2, 0), (h2, r2, 0), (r2, h1, 0), (h1, h2, 1)]
+        elif s_ == "w":
+            a_, c_, b_ = vs
+            es = [(a_, c_, 0), (c_, b_, 1)]
         else:
             es = [(a, b, 0) for a, b in itertools.combinations(vs, 2)]
         prs = [tuple(sorted((a, b))) for a, b, _c in es]
@@ -180,6 +186,7 @@ def execute(case):
         if case.get("limit", -1) >= 0:
             mcmc.convergence_limit = case["limit"]
     orc = Oracle()
+    orc.zero_draws = case.get("zero_draws", 0)
     steps = []
     last = [tr["g0"]]
     if case.get("wrap", True) and callable(getattr(mcmc, "swap_condition", None)):
@@ -188,14 +195,15 @@ def execute(case):
         def wrapper(G, e0s, e1s, u0, v0, *a, **k):
             snap = _graph_edges(G)
             st = {"u0": int(u0), "v0": int(v0), "e0s": [[int(x), int(y)] for x, y in e0s], "e1s": [[int(x), int(y)] for x, y in e1s],
-                  "has_g": snap != last[0], "g": snap if snap != last[0] else [], "result": False, "drew": False, "j": 0, "W": 1}
+                  "has_g": snap != last[0], "g": snap if snap != last[0] else [], "result": False, "drew": False, "j": 0, "W": 1, "uz": False}
             last[0] = snap
             pos = len(orc.trail)
             res = orig(G, list(e0s), list(e1s), u0, v0, *a, **k)
             st["result"] = bool(res)
             new = [t for t in orc.trail[pos:] if t[0] == "r"]
             if len(new) == 1 and new[0][1] > 0:
-                st["drew"], st["W"], st["j"] = True, new[0][1], new[0][2]
+                st["drew"], st["W"], st["j"] = True, new[0][1], max(new[0][2], 0)
+                st["uz"] = new[0][2] < 0
             if len(steps) < 1500:
                 steps.append(st)
             else:
